@@ -24,12 +24,7 @@ Inductive compat := CExact | CSuperset | CIncompat.
 
 Definition is_incompat (c : compat) : bool := match c with CIncompat => true | _ => false end.
 
-Fixpoint counts_eqb (a b : list N) : bool :=
-  match a, b with
-  | [], [] => true
-  | x :: a', y :: b' => (x =? y) && counts_eqb a' b'
-  | _, _ => false
-  end.
+(* counts_eqb: element-wise equality of two count lists, from Stream/Reader.v *)
 
 (* (w *WireSchema) Compatible(oldSchema): verdict; the error is non-nil exactly for CIncompat.
    uint arithmetic: the sums are taken in N (no wrap-around; field counts of generated schemas
@@ -120,7 +115,7 @@ Section Endpoints.
 
   (* the server's New<Root>Reader on the stream: ReadVarHeader (Compatible when a descriptor is
      present) and decoder Init (ErrTooManyFieldsToDecode, iterator exhausted, AllFetched).
-     With VPinned this is Reader.reader_open after the header was parsed (HandshakeFacts). *)
+     With VCurrent this is Reader.reader_open after the header was parsed (HandshakeFacts). *)
   Definition server_open (descr : option (list N)) : option etree :=
     match descr with
     | None =>
